@@ -38,6 +38,10 @@ def run(name):
             r = subprocess.run(['/verif/tools/mutrun.sh', f's{slot}', f'{d}/patch.diff', p], capture_output=True, text=True)
             lines = r.stdout.strip().split('\n')
             out[p] = {"exit": r.returncode, "violations": [l.strip()[:300] for l in lines if re.match(r'\s+\S+:', l) or 'MACHINERY' in l][:6]}
+        if props_override and os.path.exists(f'{d}/result.json'):
+            # a partial re-run: keep the recorded outcome of the checks that were not re-run
+            old = json.load(open(f'{d}/result.json')).get('checks', {})
+            out = {**old, **out}
         res = {"own_suite_passes_with_patch": suite_ok, "suite_summary": m[:3], "checks": out, "caught_by": [p for p, v in out.items() if v["exit"] == 1]}
         json.dump(res, open(f'{d}/result.json', 'w'), indent=1)
         print(name, 'suite_ok=%s' % suite_ok, {p: v["exit"] for p, v in out.items()}, flush=True)
